@@ -361,9 +361,9 @@ func runC08(r *Run) {
 		tie := 0
 		reachesUpdate := func(s1, s2 int) bool {
 			seen := map[*ssa.BasicBlock]bool{}
-			var walk func(b *ssa.BasicBlock) bool
-			walk = func(b *ssa.BasicBlock) bool {
-				if seen[b] || !mr.Loop[b] {
+			var walk func(b, from *ssa.BasicBlock) bool
+			walk = func(b, from *ssa.BasicBlock) bool {
+				if b == mr.Header || seen[b] || !mr.Loop[b] {
 					return false
 				}
 				seen[b] = true
@@ -372,6 +372,24 @@ func runC08(r *Run) {
 				}
 				if iff, ok := b.Instrs[len(b.Instrs)-1].(*ssa.If); ok {
 					ci := decompose(iff.Cond)
+					// a condition evaluated as a value (`a == b && k < m` in a switch case): the phi of this block takes
+					// the operand of the edge the walk came in by — a constant, or one of the two comparisons
+					if ph, isPhi := ci.Root.(*ssa.Phi); isPhi && ci.Other == nil && ci.Op == token.ILLEGAL && ph.Block() == b && from != nil {
+						for k, pb := range b.Preds {
+							if pb != from {
+								continue
+							}
+							if cb, isC := constBool(asConst(ph.Edges[k])); isC {
+								if cb != ci.Neg {
+									return walk(b.Succs[0], b)
+								}
+								return walk(b.Succs[1], b)
+							}
+							inner := decompose(ph.Edges[k])
+							inner.Neg = inner.Neg != ci.Neg
+							ci = inner
+						}
+					}
 					if kind, op := kindOf(ci); kind != 0 {
 						sign := s1
 						if kind == 2 {
@@ -379,33 +397,40 @@ func runC08(r *Run) {
 						}
 						t := holds(op, sign) != ci.Neg
 						if t {
-							return walk(b.Succs[0])
+							return walk(b.Succs[0], b)
 						}
-						return walk(b.Succs[1])
+						return walk(b.Succs[1], b)
 					}
 				}
 				for _, su := range b.Succs {
-					if su != mr.Header && walk(su) {
+					if walk(su, b) {
 						return true
 					}
 				}
 				return false
 			}
 			for _, su := range mr.Header.Succs {
-				if walk(su) {
+				if walk(su, mr.Header) {
 					return true
 				}
 			}
 			return false
 		}
-		for _, br := range branchesIn(f) {
-			if !mr.Loop[br.If.Block()] {
+		// the comparisons themselves, whether they are branched on or evaluated as values (`a == b && k < m` as one switch case)
+		for _, b := range f.Blocks {
+			if !mr.Loop[b] {
 				continue
 			}
-			if kind, op := kindOf(br.Info); kind == 1 {
-				cmpDesc = fmt.Sprintf("len(prefix) %s running length", op)
-			} else if kind == 2 {
-				tie++
+			for _, in := range b.Instrs {
+				bo, ok := in.(*ssa.BinOp)
+				if !ok {
+					continue
+				}
+				if kind, op := kindOf(decompose(bo)); kind == 1 {
+					cmpDesc = fmt.Sprintf("len(prefix) %s running length", op)
+				} else if kind == 2 {
+					tie++
+				}
 			}
 		}
 		strict := len(updBlocks) > 0 && cmpDesc != ""
@@ -444,11 +469,11 @@ func runC08(r *Run) {
 			"the prefixes are compared in a case-folded form, so two mount points that differ in letter case only (/API and /api) are equally long candidates; without a tie-break on the keys as written the strict length comparison keeps whichever the map iteration yields first — the handler chosen for one path differs between calls")
 		// candidates are prefixes of one loop-invariant string
 		hp := false
-		for _, c := range callsMatching(f, false, nameIs("strings.HasPrefix")) {
-			if !mr.Loop[c.Block()] || !keyLike(c.Common.Args[1], mr.Key) {
+		for _, c := range prefixTestsIn(f) {
+			if c.Instr.Parent() != f || !mr.Loop[c.Block()] || !keyLike(c.Needle, mr.Key) {
 				continue
 			}
-			x := c.Common.Args[0]
+			x := c.Hay
 			inv := false
 			if in, ok := x.(ssa.Instruction); ok && !mr.Loop[in.Block()] {
 				inv = true
@@ -457,9 +482,9 @@ func runC08(r *Run) {
 			} else if _, ok := x.(*ssa.Parameter); ok {
 				inv = true
 			}
-			for _, br := range ifsOnValue(f, c.Value()) {
-				if s, ok := br.truthSlot(true); ok && inv {
-					tgt := br.If.Block().Succs[s]
+			for _, he := range c.holdsEdges(f) {
+				if inv {
+					tgt := he.To()
 					all := len(updBlocks) > 0
 					for _, ub := range updBlocks {
 						if !dom(tgt, ub) {
@@ -485,11 +510,11 @@ func runC08(r *Run) {
 			}
 			cutG := map[edge]bool{}
 			var hpCalls []ssa.Value
-			for _, hc := range callsMatching(g, false, nameIs("strings.HasPrefix")) {
-				if hc.Common.Args[1] != ssa.Value(pk) {
+			for _, hc := range prefixTestsIn(g) {
+				if hc.Instr.Parent() != g || stripValue(hc.Needle) != ssa.Value(pk) {
 					continue
 				}
-				pp, isParam := hc.Common.Args[0].(*ssa.Parameter)
+				pp, isParam := stripValue(hc.Hay).(*ssa.Parameter)
 				if !isParam {
 					continue
 				}
@@ -511,14 +536,14 @@ func runC08(r *Run) {
 				if !inv {
 					continue
 				}
-				hpCalls = append(hpCalls, hc.Value())
-				for _, br := range ifsOnValue(g, hc.Value()) {
-					if sl, ok := br.truthSlot(true); ok {
-						cutG[edge{br.If.Block(), sl}] = true
-					}
+				if hc.HoldsWhen {
+					hpCalls = append(hpCalls, hc.Val)
+				}
+				for _, he := range hc.holdsEdges(g) {
+					cutG[he] = true
 				}
 			}
-			if len(hpCalls) == 0 {
+			if len(hpCalls) == 0 && len(cutG) == 0 {
 				continue
 			}
 			isHP := func(v ssa.Value) bool {
@@ -635,8 +660,8 @@ func runC08(r *Run) {
 			}
 		}
 		concat := false
-		for _, c := range callsMatching(f, false, nameIs("strings.HasPrefix")) {
-			if dependsOn(c.Common.Args[1], func(v ssa.Value) bool {
+		for _, c := range prefixTestsIn(f) {
+			if dependsOn(c.Needle, func(v ssa.Value) bool {
 				bo, ok := v.(*ssa.BinOp)
 				if !ok || bo.Op != token.ADD {
 					return false
@@ -950,9 +975,9 @@ func runC08(r *Run) {
 		n := 0
 		okAll := true
 		withHelpers(func() {
-			for _, c := range callsMatching(f, false, nameIs("strings.HasPrefix")) {
+			for _, c := range prefixTestsIn(f) {
 				n++
-				if dependsOn(c.Common.Args[0], isFold) == nil || dependsOn(c.Common.Args[1], isFold) == nil {
+				if dependsOn(c.Hay, isFold) == nil || dependsOn(c.Needle, isFold) == nil {
 					okAll = false
 				}
 			}
@@ -967,7 +992,7 @@ func runC08(r *Run) {
 		// string that also carries the query or the scheme and host of an absolute-form target
 		fromPath := n > 0
 		withHelpers(func() {
-			for _, c := range callsMatching(f, false, nameIs("strings.HasPrefix")) {
+			for _, c := range prefixTestsIn(f) {
 				isPathCall := func(v ssa.Value) bool {
 					cc, ok := v.(*ssa.Call)
 					return ok && cc.Call.IsInvoke() && cc.Call.Method.Name() == "Path"
@@ -976,7 +1001,7 @@ func runC08(r *Run) {
 					cc, ok := v.(*ssa.Call)
 					return ok && cc.Call.IsInvoke() && cc.Call.Method.Name() != "Path" && strings.HasSuffix(cc.Call.Value.Type().String(), "fiber/v3.Ctx")
 				}
-				if dependsOn(c.Common.Args[0], isPathCall) == nil || dependsOn(c.Common.Args[0], isOther) != nil {
+				if dependsOn(c.Hay, isPathCall) == nil || dependsOn(c.Hay, isOther) != nil {
 					fromPath = false
 				}
 			}
@@ -986,4 +1011,84 @@ func runC08(r *Run) {
 		r.check(n > 0 && okAll && cs, "ErrorHandler:case-folding-like-routing", r.fpos(f), "path and mount prefix are folded (under !CaseSensitive) before they are compared",
 			"routes are matched ignoring letter case unless CaseSensitive is set, but the mounted error handler is chosen by an exact prefix comparison: a request to /API/… runs the sub-app's route and has its error delivered to the root application's handler")
 	})
+}
+
+// prefixTest: one test "needle is a prefix of hay", written as strings.HasPrefix(hay, needle) or as the comparison of
+// a slice of hay with needle (`hay[:len(needle)] == needle`, bounded elsewhere). Val is the boolean the code computes,
+// HoldsWhen the truth value of Val for which the prefix relation holds (false for the != form).
+type prefixTest struct {
+	Hay, Needle ssa.Value
+	Val         ssa.Value
+	HoldsWhen   bool
+	Instr       ssa.Instruction
+}
+
+func (t prefixTest) Block() *ssa.BasicBlock { return t.Instr.Block() }
+
+func prefixTestsIn(f *ssa.Function) []prefixTest {
+	var out []prefixTest
+	for _, c := range callsMatching(f, false, nameIs("strings.HasPrefix")) {
+		out = append(out, prefixTest{c.Common.Args[0], c.Common.Args[1], c.Value(), true, c.Instr})
+	}
+	for _, g := range append([]*ssa.Function{f}, helpersOf(f)...) {
+		for _, b := range g.Blocks {
+			for _, in := range b.Instrs {
+				bo, ok := in.(*ssa.BinOp)
+				if !ok || (bo.Op != token.EQL && bo.Op != token.NEQ) {
+					continue
+				}
+				for _, pr := range [][2]ssa.Value{{bo.X, bo.Y}, {bo.Y, bo.X}} {
+					sl, ok := stripValue(pr[0]).(*ssa.Slice)
+					if !ok || sl.Low != nil || sl.High == nil || !isByteSeq(sl.X.Type()) {
+						continue
+					}
+					if !isLenOf(sl.High, pr[1]) {
+						continue
+					}
+					out = append(out, prefixTest{sl.X, pr[1], bo, bo.Op == token.EQL, bo})
+				}
+			}
+		}
+	}
+	return out
+}
+
+// holdsEdges: the edges of fn on which the prefix relation tested by t holds.
+func (t prefixTest) holdsEdges(fn *ssa.Function) []edge {
+	var out []edge
+	if _, isCmp := t.Val.(*ssa.BinOp); !isCmp {
+		for _, br := range ifsOnValue(fn, t.Val) {
+			if sl, ok := br.truthSlot(t.HoldsWhen); ok {
+				out = append(out, edge{br.If.Block(), sl})
+			}
+		}
+		return out
+	}
+	// a comparison: the branches whose condition is this comparison (decompose splits it into its operands)
+	for _, g := range append([]*ssa.Function{fn}, helpersOf(fn)...) {
+		for _, b := range g.Blocks {
+			iff, ok := b.Instrs[len(b.Instrs)-1].(*ssa.If)
+			if !ok {
+				continue
+			}
+			c, neg := iff.Cond, false
+			for {
+				u, isNot := c.(*ssa.UnOp)
+				if !isNot || u.Op != token.NOT {
+					break
+				}
+				c, neg = u.X, !neg
+			}
+			if c != t.Val {
+				continue
+			}
+			// cond true ⇔ Val == !neg ; want Val == HoldsWhen
+			slot := 1
+			if (t.HoldsWhen) != neg {
+				slot = 0
+			}
+			out = append(out, edge{b, slot})
+		}
+	}
+	return out
 }
